@@ -196,10 +196,16 @@ func GetSignatureTypeFromCertificate(cert Certificate) (int, error) {
 	if kind != CERT_KEY {
 		return CERT_EMPTY_PAYLOAD_SIZE, oops.Errorf("unexpected certificate type: %d", kind)
 	}
-	if len(cert.payload) < CERT_MIN_KEY_PAYLOAD_SIZE {
+	// Data() is bounded by the declared length: bytes that merely follow the certificate
+	// in the buffer it was read from are not part of its payload.
+	payload, err := cert.Data()
+	if err != nil {
+		return CERT_EMPTY_PAYLOAD_SIZE, err
+	}
+	if len(payload) < CERT_MIN_KEY_PAYLOAD_SIZE {
 		return CERT_EMPTY_PAYLOAD_SIZE, oops.Errorf("certificate payload too short to contain signature type")
 	}
-	sigType := int(binary.BigEndian.Uint16(cert.payload[CERT_KEY_SIG_TYPE_OFFSET : CERT_KEY_SIG_TYPE_OFFSET+CERT_SIGNING_KEY_TYPE_SIZE])) // Read signing public key type from correct offset
+	sigType := int(binary.BigEndian.Uint16(payload[CERT_KEY_SIG_TYPE_OFFSET : CERT_KEY_SIG_TYPE_OFFSET+CERT_SIGNING_KEY_TYPE_SIZE])) // Read signing public key type from correct offset
 	return sigType, nil
 }
 
@@ -214,9 +220,14 @@ func GetCryptoTypeFromCertificate(cert Certificate) (int, error) {
 	if kind != CERT_KEY {
 		return 0, oops.Errorf("unexpected certificate type: %d", kind)
 	}
-	if len(cert.payload) < CERT_MIN_KEY_PAYLOAD_SIZE {
+	// Data() is bounded by the declared length (see GetSignatureTypeFromCertificate).
+	payload, err := cert.Data()
+	if err != nil {
+		return 0, err
+	}
+	if len(payload) < CERT_MIN_KEY_PAYLOAD_SIZE {
 		return 0, oops.Errorf("certificate payload too short to contain crypto type")
 	}
-	cryptoType := int(binary.BigEndian.Uint16(cert.payload[CERT_KEY_CRYPTO_TYPE_OFFSET : CERT_KEY_CRYPTO_TYPE_OFFSET+CERT_CRYPTO_KEY_TYPE_SIZE]))
+	cryptoType := int(binary.BigEndian.Uint16(payload[CERT_KEY_CRYPTO_TYPE_OFFSET : CERT_KEY_CRYPTO_TYPE_OFFSET+CERT_CRYPTO_KEY_TYPE_SIZE]))
 	return cryptoType, nil
 }
